@@ -170,7 +170,7 @@ PROPS = {
                 rule="one evaluation = one complete query walk (all pages) or one direct lookup against the ledger observed in the same step; non-trivial = every query step; distinct = distinct (ledger, query)"),
     "C19": dict(families=["DET"], groups=[], level="exploration",
                 rule="the same generated histories (random FUNDS and PAUSE histories, the parse-mutation grid, the request grid, the genesis-document grid, the pass-through grid) replayed in R independent OS processes (R=2 quick, 4 thorough; different GOMAXPROCS/GC settings, Go randomises map iteration per process); per step a digest of acknowledgement bytes, ordered events, exported orbiter state, full bank export and all-store hash; non-trivial = a step with peer digests; distinct = distinct (pre-state, input); error-branch coverage of the specification by the replayed steps is reported"),
-    "C04": dict(symbolic=[("FeeMath", "Lemmas")], families=["FEES", "FEESBIG", "BIGSEQ"], groups=["ack", "bal"], level="model_checking", exhaustive=True,
+    "C04": dict(symbolic=[("FeeMath", "Lemmas")], tlaps=["FeeProofs"], families=["FEES", "FEESBIG", "BIGSEQ"], groups=["ack", "bal"], level="model_checking", exhaustive=True,
                 rule="every grid point (amount x fee-entry list) is one packet through the real application; non-trivial = the payload carries a fee action that parses; distinct = distinct abstract input"),
     "C05": dict(families=["REQ"], groups=["ack", "req"], level="model_checking", exhaustive=True,
                 rule="every grid point (protocol id x attribute type x attribute values x pre-action) is one packet, executed once with recording wrappers around the real bridge servers and once through the simapp wiring; non-trivial = a successful transfer (request compared) or a mismatched/unrouted payload (must be refused); distinct = distinct abstract input x wiring"),
@@ -453,6 +453,21 @@ def symbolic_lemmas(specdir, module, inv, wd):
     return dict(tool="apalache-mc 0.58.0", module=module, invariant=inv, conjuncts=n, bound="none (mathematical integers)", wall_s=round(dt, 1))
 
 
+def tlaps_proofs(specdir, module, wd):
+    """Lemmas of the specification proved by the TLA+ proof system (tlapm, SMT/Zenon/Isabelle back ends):
+    for all naturals, no bound. An unproved obligation is a SPECIFICATION error (exit 2)."""
+    d = os.path.join(wd, "tlaps-" + module)
+    os.makedirs(d, exist_ok=True)
+    shutil.copy(os.path.join(specdir, module + ".tla"), d)
+    rc, out, dt = run(["tlapm", "--threads", "8", module + ".tla"], 900, what="tlapm " + module, cwd=d)
+    m = re.search(r"All (\d+) obligations? proved", out)
+    shutil.rmtree(d, ignore_errors=True)
+    if rc != 0 or not m:
+        raise Machinery("tlapm did not prove %s (rc=%d):\n%s" % (module, rc, out[-1500:]))
+    log("TLAPS proved %s: %s obligations (all naturals) in %.0fs" % (module, m.group(1), dt))
+    return dict(tool="tlapm 1.6.0-pre", module=module, obligations=int(m.group(1)), discharged=int(m.group(1)), bound="none (all naturals)", wall_s=round(dt, 1))
+
+
 def check(prop, tier):
     t0 = time.time()
     seed = int(os.environ.get("VERIF_SEED", "1"))
@@ -485,6 +500,7 @@ def check(prop, tier):
         if behs:
             samples.append(dict(history=[in_summary(s) for s in behs[len(behs) // 2]["steps"]]))
     symbolic = [symbolic_lemmas(specdir, m, inv, wd) for m, inv in P.get("symbolic", [])]
+    symbolic += [tlaps_proofs(specdir, m, wd) for m in P.get("tlaps", [])]
     nontriv = len(report["nontrivial_keys"])
     if nontriv < 2:
         raise Machinery("vacuous run: the antecedent of %s was true on %d distinct observed steps" % (prop, nontriv))
